@@ -98,6 +98,12 @@ def fam_c17(rnd, tier):
     return [(f"c17:{i}", gen.program_c17(rnd), ["canon"]) for i in range(n)]
 
 
+@family("C10")
+def fam_c10(rnd, tier):
+    n = 500 if tier == "quick" else 20000
+    return [(f"c10:{i}", gen.program_c10(rnd), ["canon"]) for i in range(n)]
+
+
 @family("C11")
 def fam_c11(rnd, tier):
     n = 500 if tier == "quick" else 20000
